@@ -275,7 +275,11 @@ func (d *Decoder) readMap(dest reflect.Value) error {
 		SetValue(dest, r)
 		return nil
 	case _mapTypedTag:
-		d.readString(_tagRead)
+		// the map's type takes part in the stream's type table like any other:
+		// a later type given by reference counts it
+		if _, err := d.readType(); err != nil {
+			return err
+		}
 	case _mapUntypedTag:
 		//do nothing
 	default:
